@@ -4,7 +4,7 @@ from mc import enum
 EDGE_KINDS = ["pipe", "pipe3", "pipe_h", "pipe_rev", "pipe_zeta", "valve", "valve_closed", "pipe_vpi",
               "pipe_vpi_closed", "pipe_vpi2", "pump", "compressor", "fc", "fc_off", "pc", "pc_off", "hex", "pipe_oos"]
 LOAD_KINDS = ["sink", "source", "storage_pos", "storage_neg", "two_sinks", "sink_oos", "none", "nan"]
-FEEDER_KINDS = ["one", "two_same", "second_other", "two_one_oos", "type_p"]
+FEEDER_KINDS = ["one", "two_same", "second_other", "two_one_oos", "type_p", "three_interleaved"]
 LABEL_KINDS = ["range", "shift", "desc", "big"]
 FRICTION = ["nikuradse", "colebrook", "swamee-jain"]
 
@@ -81,13 +81,19 @@ def h_spec(case):
     ops.append({"op": "ext_grid", "id": "eg0", "junction": "j%d" % feeder, "p_bar": p0, "t_k": 300.0,
                 "type": "p" if fk == "type_p" else "pt"})
     if fk == "two_same":
-        ops.append({"op": "ext_grid", "id": "eg1", "junction": "j%d" % feeder, "p_bar": p0 + 0.4, "t_k": 300.0})
+        late_eg = {"op": "ext_grid", "id": "eg1", "junction": "j%d" % feeder, "p_bar": p0 + 0.4, "t_k": 300.0}
     elif fk == "second_other":
         ops.append({"op": "ext_grid", "id": "eg1", "junction": "j%d" % ((feeder + 1) % n), "p_bar": p0 - 0.2,
                     "t_k": 300.0})
+    elif fk == "three_interleaved":
+        # two grids on the feeder junction separated in the table by a grid on another junction
+        ops.append({"op": "ext_grid", "id": "eg1", "junction": "j%d" % ((feeder + 1) % n), "p_bar": p0 - 0.2,
+                    "t_k": 300.0})
+        ops.append({"op": "ext_grid", "id": "eg2", "junction": "j%d" % feeder, "p_bar": p0 + 0.4, "t_k": 300.0})
     elif fk == "two_one_oos":
         ops.append({"op": "ext_grid", "id": "eg1", "junction": "j%d" % feeder, "p_bar": p0 + 0.4, "t_k": 300.0,
                     "in_service": False})
+    late_ops = []
     for j in range(n):
         if j == feeder:
             continue
@@ -104,11 +110,15 @@ def h_spec(case):
             ops.append({"op": "mass_storage", "id": "ld%d" % j, "junction": jid, "mdot": -m * 0.5})
         elif lk == "two_sinks":
             ops.append({"op": "sink", "id": "ld%d" % j, "junction": jid, "mdot": m, "scaling": 0.5})
-            ops.append({"op": "sink", "id": "ld%db" % j, "junction": jid, "mdot": m * 0.4, "scaling": 1.5})
+            # the second sink of the junction is created after all other loads: non-adjacent duplicate rows
+            late_ops.append({"op": "sink", "id": "ld%db" % j, "junction": jid, "mdot": m * 0.4, "scaling": 1.5})
         elif lk == "sink_oos":
             ops.append({"op": "sink", "id": "ld%d" % j, "junction": jid, "mdot": m, "in_service": False})
         elif lk == "nan":
             ops.append({"op": "sink", "id": "ld%d" % j, "junction": jid, "mdot": float("nan")})
+    ops.extend(late_ops)
+    if fk == "two_same":
+        ops.append(late_eg)
     for ei, (a, b) in enumerate(edges):
         k = pt["e%d" % ei]
         eid = "b%d" % ei
